@@ -16,7 +16,9 @@ RULE = ("port trees of depth 1..4 built from one table per level of the struct f
         "recursion callback), leaves from rToggle / rParamI / rSelf callbacks and plain leaves with 0..2 '#N', "
         "multi-component names and argument parts; 'enabled by' metadata on sub-tree ports and on self:; walked without "
         "a runtime object and with one under random assignments of every toggle and every rRecurp pointer; initial "
-        "buffer empty, '/' or a prefix.  Non-trivial = at least one '#' or two levels, or a pruned sub-tree.")
+        "buffer empty, '/' or a prefix; every reported address is sent as a message with EVERY argument alternative its port declares "
+        "(leaves with :i:f, :s:ss, ::i:c:S, :ii:f:T, ::T:F ...), with and without a location buffer; up to 24 addresses per case that the walk does "
+        "not report (a reported leaf address extended by one or two letters, by a sibling's name, by its first character) are sent too and must reach no leaf.  Non-trivial = at least one '#' or two levels, or a pruned sub-tree.")
 TRUSTED = ["harness/h_C09.cpp: the struct family, the run-time pairing of names/metadata with macro-generated callbacks, "
            "the resolution of table addresses to objects, the walker callback, the dispatch of every reported address",
            "tools/props/ports_common.py: the Spec-side expansion of '#N'"]
@@ -150,7 +152,7 @@ def gen_level_tables(rng, depth, dirty):
                     segs.append(('E', rng.choice([1, 2, 3, 11] if lv == 1 else [1, 2, 3])))
                     if rng.random() < 0.3:
                         segs.append(lit(rng.choice("xyz")))
-            t.append(pc.mk_port(merge(segs), rng.choice([b"", b"", b":i", b"::i", b":", b":T:F", b":s:i"]),
+            t.append(pc.mk_port(merge(segs), rng.choice([b"", b"", b":i", b"::i", b":", b":T:F", b":s:i", b":i:f", b":s:ss", b"::i:c:S", b":ii:f:T"]),
                                 pc.gen_meta(rng) if rng.random() < 0.5 else None, None, kind='L'))
         rng.shuffle(t)
         if not t:
@@ -288,6 +290,50 @@ def off_toggle_addrs(tables, off):
 def bump(dist, k, n=1):
     dist[k] = dist.get(k, 0) + n
 
+def alternatives(name):
+    """the argument alternatives a port name declares (b"x:s:i" -> [b"s", b"i"]; none declared -> [b""])"""
+    i = name.find(b":")
+    return [b""] if i < 0 else name[i + 1:].split(b":")
+
+import re
+LEADING_ZERO = re.compile(rb"0[0-9]")      # a '0' in front of a digit: possibly an index spelled with a leading zero
+
+def unreported(addr, reported):
+    """an address the walk must not report and no leaf may answer to: it is none of the enumerated
+    addresses and has no '0' in front of a digit (an index with leading zeros is the one other spelling
+    dispatch accepts; literal digits in names make any such run a possible one)"""
+    return addr not in reported and not LEADING_ZERO.search(addr)
+
+def port_at(t, ids):
+    tb, p = t, None
+    for i in ids:
+        p = tb[i]
+        tb = p['sub'] or []
+    return p
+
+def near_misses(rng, t, enum, dist):
+    """addresses next to reported ones that were NOT reported: a reported leaf address extended by one
+    or two characters, or by the (concrete) name of a sibling of that leaf; sent with the arguments of
+    the leaf's first alternative, so that only the address keeps the leaf from answering"""
+    reported = {a for _, a in enum}
+    out = []
+    for ids, a in rng.sample(enum, min(len(enum), 8)):
+        p = port_at(t, ids)
+        tb = t
+        for i in ids[:-1]:
+            tb = tb[i]['sub']
+        sibs = [x for q in tb if q is not p for x in pc.expand(q['segs'])[:1]]
+        cands = [bytes([rng.choice(b"abcdxyz")]), bytes(rng.choice(b"abcdxyz") for _ in range(2)), b"a", b"b"]
+        if sibs:
+            sb = rng.choice(sibs)
+            cands += [sb, sb.rstrip(b"/"), sb[:1]]
+        ty = alternatives(p['name'])[0]
+        for c in cands:
+            if c and unreported(a + c, reported) and len(out) < 24:
+                out.append((a + c, ty))
+                bump(dist, "near-miss-address:" + ("+sibling-name" if len(c) > 2 or (sibs and c in (sb, sb.rstrip(b"/"))) else "+%d-char" % len(c)))
+    return out
+
 def gen(rng, tier, dist):
     out = []
     ntree = 400 if tier == "quick" else 10000
@@ -311,6 +357,9 @@ def gen(rng, tier, dist):
         bump(dist, "names_ok-trees", nok)
         bump(dist, "names_ok-trees-with-literal-digits", 1 if nok and any(48 <= c <= 57 for p in flat for k, v in p['segs'] if k == 'L' for c in v) else 0)
         tables = all_tables(t)
+        enum_all = spec_walk(t, 0, set(), set(), b"/")
+        bump(dist, "reported-leaves-with-several-argument-alternatives",
+             sum(1 for ids, _ in enum_all if len(alternatives(port_at(t, ids)['name'])) > 1))
         keys = sorted({k for _, _, k in tables})
         tab_of_key = {}
         for a, tb, k in tables:
@@ -351,7 +400,8 @@ def gen(rng, tier, dist):
             buf = rng.choice([b"", b"", b"/", b"/pre/", b"/p0/q/"])
             j = lambda l: ";".join(hx(x) for x in l) if l else "-"
             offs = ";".join("%s:%d" % (hx(tab_of_key[k][0]), 0 if w == 'T' else 1) for k, w in sorted(off)) or "-"
-            out.append("walk %s %s %s %d %s %s %s %s nok=%d tg=%s" % (et, ek, hx(buf), rt, j(sorted(set(nulladdrs))), j(dis), j(selfoff), offs, nok, j(tgoff)))
+            nm = ";".join("%s:%s" % (hx(a), ty.decode() or "-") for a, ty in near_misses(rng, t, enum_all, dist)) or "-"
+            out.append("walk %s %s %s %d %s %s %s %s nok=%d tg=%s nm=%s" % (et, ek, hx(buf), rt, j(sorted(set(nulladdrs))), j(dis), j(selfoff), offs, nok, j(tgoff), nm))
             bump(dist, "runtime" if rt else "static")
             bump(dist, "pruned-subtrees", len(dis) + len(nulls))
     return out
@@ -432,6 +482,51 @@ def spec_check(case, impl):
             if got_dl != want_dl:
                 return ("dispatch-loc: %r reported for port %s; with a location buffer the dispatch gave %s "
                         "(port@loc#matches#loc-after), expected %s" % (a, i, r, want_dl))
+        # ... and that with EVERY argument alternative the port declares, not only the first
+        if "da" in m:
+            da = m["da"].split(";") if got else []
+            if len(da) != len(got):
+                return "dispatch-alternatives: %d pairs were reported, %d results came back" % (len(got), len(da))
+            ids_of = [ids for ids, _ in spec_walk(t, rt, off, nulls, b"/")]
+            for (i, a), ids, r in zip(got, ids_of, da):
+                alts = alternatives(port_at(t, ids)['name'])[1:]
+                res = [] if r == "-" else r.split("|")
+                if len(res) != len(alts):
+                    return "dispatch-alternatives: %r: port %s declares %d further alternatives, %d were sent" % (a, i, len(alts), len(res))
+                rel = b"/" + a[len(pre):]
+                want_dl = "%s@%s#1#%s" % (i, hx(rel), hx(b"/"))
+                for alt, x in zip(alts, res):
+                    ty, _, both = x.partition("!")
+                    noloc, _, wl = both.partition("~")
+                    if ty != alt.decode():
+                        return "dispatch-alternatives: %r: alternative %r was to be sent, %r was" % (a, alt, ty)
+                    if canon_ids(t, noloc) != i:
+                        return ("dispatch-alternative: %r was reported for port %s; sent with the arguments ',%s' (an alternative the port "
+                                "declares) and no location buffer it reached %s" % (a, i, ty, noloc))
+                    hit, _, rest = wl.partition("#")
+                    hid, _, hloc = hit.partition("@")
+                    got_dl = "%s@%s#%s" % (canon_ids(t, hid), hloc, rest)
+                    if got_dl != want_dl:
+                        return ("dispatch-alternative: %r was reported for port %s; sent with the arguments ',%s' (an alternative the port "
+                                "declares) and a location buffer the dispatch gave %s (port@loc#matches#loc-after), expected %s" % (a, i, ty, wl, want_dl))
+        # addresses next to reported ones that the walk does NOT report reach no leaf
+        nmf = next((x[3:] for x in f[9:] if x.startswith("nm=")), "-")
+        if nmf != "-" and "nd" in m:
+            reported = {a for _, a in spec_walk(t, 0, set(), set(), b"/")}
+            ents = nmf.split(";")
+            nd = m["nd"].split(";")
+            if len(nd) != len(ents):
+                return "unreported: %d addresses were sent, %d results came back" % (len(ents), len(nd))
+            for e, r in zip(ents, nd):
+                a = unhx(e.split(":")[0])
+                if not unreported(a, reported):
+                    continue
+                if r != "-~-#0":
+                    noloc, _, wl = r.partition("~")
+                    names = lambda x: "+".join(repr(unhx(y)) for y in x.split("+")) if x != "-" else "no port"
+                    return ("unreported-address: %r is not among the addresses the walk reports, yet sent as a message (arguments ',%s') it "
+                            "reaches %s without and %s with a location buffer (d.matches %s)"
+                            % (a, e.split(":")[1].replace("-", ""), names(noloc), names(wl.split("#")[0]), wl.split("#")[1]))
     return None
 
 def canon_id(t, ids):
